@@ -280,17 +280,18 @@ theorem C09_rejects (D : Data α) (S : Services α) (o : NumOps α) (P : Params 
 
 /-! ### non-vacuity -/
 
-/-- ℝ with `Real.sqrt` is a lawful number system. -/
-noncomputable def realOps : NumOps ℝ :=
+/-- ℝ with `Real.sqrt` as the number system of the model. -/
+noncomputable def CpAls.realOps : NumOps ℝ :=
   { sqrt := Real.sqrt, abs := fun x => |x|, lt := fun a b => decide (a < b),
     isZero := fun a => decide (a = 0), ofNat := fun n => (n : ℝ) }
 
-theorem C09_real_lawful : realOps.Lawful :=
+/-- ℝ with `Real.sqrt` is a lawful number system: every theorem above applies to it. -/
+theorem C09_real_lawful : CpAls.realOps.Lawful :=
   { sqrt_nonneg := fun x _ => Real.sqrt_nonneg x,
     sqrt_mul_self := fun _ hx => Real.mul_self_sqrt hx,
     abs_eq := fun _ => rfl,
-    lt_iff := fun a b => by simp [realOps],
-    isZero_iff := fun a => by simp [realOps],
+    lt_iff := fun a b => by simp [CpAls.realOps],
+    isZero_iff := fun a => by simp [CpAls.realOps],
     ofNat_eq := fun _ => rfl }
 
 /-- `DataLaws` is satisfiable: the zero array with the zero services.  (For the dense, sparse,
